@@ -143,7 +143,8 @@ impl Default for GenParams {
 }
 
 pub fn gen_name(rng: &mut Rng, weird: bool) -> Vec<u8> {
-    const PLAIN: [&str; 13] = ["a", "b", "c", "d1", "e.txt", "f.bin", "g", "data", "x.log", "lib", "src", "z", "in.stream"];
+    // "data.txt" / "data-old" next to "data": byte order and path-component order differ ('.' and '-' sort below '/')
+    const PLAIN: [&str; 15] = ["a", "b", "c", "d1", "e.txt", "f.bin", "g", "data", "x.log", "lib", "src", "z", "in.stream", "data.txt", "data-old"];
     if !weird || rng.chance(3, 4) {
         let mut n = PLAIN[rng.usize(PLAIN.len())].as_bytes().to_vec();
         if rng.chance(1, 2) {
